@@ -939,7 +939,7 @@ func (p *balloons) fillableBalloonInstances(blnDef *BalloonDef, fm FillMethod, c
 		// Choosing an existing balloon without containers is
 		// preferred over instantiating a new balloon.
 		for _, bln := range p.balloonsByDef(blnDef) {
-			if len(bln.PodIDs) == 0 {
+			if len(bln.PodIDs) == 0 && p.maxFreeMilliCpus(bln) >= reqMilliCpus {
 				return []*Balloon{bln}, nil
 			}
 		}
